@@ -55,6 +55,8 @@ def coerced_before(fn, name, use, typ):
 
 def check(ctx):
     repo = ctx.repo
+    from . import generic as _gen
+    _gen.language_traps(ctx, _gen.anchor_functions(repo, "C15"), "the property holds for every input, on every call")
     from . import generic
     generic.memo_projection(ctx, ("dataiter.list_of_dicts",), "select / rename / modify change only the named keys of each item, in the item's own key order")
     generic.wrapper_must_call(ctx, [f for f in generic.module_functions(repo, "dataiter.deco")],
